@@ -2,3 +2,4 @@ import PytaskModel.Generated
 import PytaskModel.Graph
 import PytaskModel.Sorter
 import PytaskModel.Engine
+import PytaskModel.Capture
